@@ -1,1 +1,6 @@
 """hgxverif: static checks for the hypergraphx properties (see /verif/DESIGN.md)."""
+
+import warnings as _w
+
+# the analysed sources contain docstrings with invalid escape sequences; parsing them must not clutter the verdict
+_w.filterwarnings("ignore", category=SyntaxWarning)
